@@ -6,8 +6,10 @@ from . import gen, stores
 from .util import md5hex, safe_call
 
 
-def gen_case(rng):
-    """an index mixing files, explicit directories and unloaded directory objects at depth <= 3"""
+def gen_case(rng, empty=None):
+    """an index mixing files, explicit directories and unloaded directory objects at depth <= 3; with `empty` also unloaded
+    directory objects whose listing is empty (the object `[]`): "sibling" = next to the other entries (top level or beside
+    another directory object), "nested" = at depth 2-3 below implicit / explicit directories, "only" = the only entry"""
     tops = ["a", "b", "dirobj", "x", "nested"]
     files = {}       # explicit file entries: key -> bytes
     lazy = {}        # key of an unloaded directory entry -> {relkey: bytes}
@@ -29,8 +31,24 @@ def gen_case(rng):
     lazy = {k: v for k, v in lazy.items() if ok(k)}
     if not lazy:
         lazy = {("only",): {("g",): b"inner"}}
+    extra = {}
+    if empty == "only":
+        files, lazy = {}, {rng.choice([("only",), ("deep", "only"), ("lz", "deep", "only")]): {}}
+    elif empty == "sibling":
+        parents = [()] + sorted({d[:-1] for d in lazy if len(d) > 1})
+        for _ in range(rng.randrange(1, 3)):
+            lazy[rng.choice(parents) + ("emp%d" % rng.randrange(3),)] = {}
+    elif empty == "nested":
+        for _ in range(rng.randrange(1, 3)):
+            lazy[tuple(rng.choice(["lz", "deep", "n"]) for _ in range(rng.randrange(1, 3))) + ("emp%d" % rng.randrange(3),)] = {}
+    if empty:
+        if rng.random() < 0.3:
+            # one of the ordinary directory objects is empty as well
+            lazy[rng.choice(sorted(lazy))] = {}
+        extra = {"empty_listing": empty}
     explicit_dirs = rng.random() < 0.6
     return {
+        **extra,
         "files": {"/".join(k): v.decode() for k, v in files.items()},
         "lazy": {"/".join(k): {"/".join(r): v.decode() for r, v in s.items()} for k, s in lazy.items()},
         "explicit_dirs": explicit_dirs, "sqlite": rng.random() < 0.4, "existence_index": rng.random() < 0.3,
@@ -186,6 +204,9 @@ def check(ctx, case):
     caseq = {**case, "queries": queries}
     ctx.case(caseq, nontrivial=any(q["q"] in ("get", "ls", "info") and tuple(q["key"]) in below for q in queries))
     ctx.count("backend:%s" % ("sqlite" if case["sqlite"] else "memory"))
+    if any(not sub for sub in lazy.values()):
+        ctx.count("empty-listing-directory:%s:%s" % (case.get("empty_listing"), "sqlite" if case["sqlite"] else "memory"))
+        ctx.count("empty-listing-directory-at-depth:%d" % max(len(d) for d, sub in lazy.items() if not sub))
     impl_l, impl_e = [], []
     reopen = build_indexes.reopen
     when = case.get("reopen") if case["sqlite"] else None
@@ -729,6 +750,197 @@ def check_adaptors(ctx, case):
             safe_call(idx.close)
 
 
+# ---------------------------------------------------------------------------------------------------------------------
+# one entry, several storage roles: cache / remote object stores next to `data` FileStorages (import sources, workspaces)
+# ---------------------------------------------------------------------------------------------------------------------
+def gen_roles_case(rng):
+    """an index that pins 1-3 files and one directory (held as a directory object at depth 1-2) by hash, with storages of
+    several roles registered for the same keys: a cache and / or a remote object store at () or at a prefix, each holding an
+    independently chosen subset of the pinned objects, and `data` FileStorages (the places the paths were imported from)
+    registered per file or at the prefix of the explicit files, whose current bytes are the pinned ones, have moved on since,
+    or are gone"""
+    dirkey = rng.choice([("dir",), ("imp", "dir"), ("d",)])
+    pool = [("x",), ("g1",), ("sub", "y"), ("sub", "z"), ("s", "t", "w")]
+    inner = {dirkey + r: "pinned-%d-%s" % (rng.randrange(1000), "p" * rng.randrange(0, 9)) for r in rng.sample(pool, rng.randrange(1, 4))}
+    grp = rng.choice([(), ("a",), ("ws", "in")])           # the explicit files live under this (possibly empty) prefix
+    outer = {grp + ("f%d" % i,): "pinned-file-%d-%s" % (rng.randrange(1000), "q" * rng.randrange(0, 9)) for i in rng.sample(range(4), rng.randrange(1, 4))}
+    roles = {"cache": rng.random() < 0.85, "remote": rng.random() < 0.6}
+    if not (roles["cache"] or roles["remote"]):
+        roles[rng.choice(["cache", "remote"])] = True
+    # where the object stores are registered: () or (sometimes) the two halves of the index separately
+    split_at = {r: (rng.random() < 0.25) for r in roles}
+    data_kind = lambda: rng.choice([None, None, "same", "moved", "moved", "gone"])  # noqa: E731
+    files = {}
+    for k, v in sorted({**inner, **outer}.items()):
+        same_size = rng.random() < 0.5
+        files["/".join(k)] = {
+            "pinned": v, "below_dir": k in inner,
+            "cache": rng.random() < 0.6, "remote": rng.random() < 0.6,
+            "data": data_kind(),
+            # what the import source holds now (same length as the pinned bytes half of the time)
+            "now": ("MOVED-" + v)[: len(v)] if same_size else "upstream has moved on: %d" % rng.randrange(1000),
+        }
+    for f in files.values():
+        if f["data"] == "moved" and f["now"] == f["pinned"]:
+            f["now"] = f["now"] + "!"
+    # the explicit files share ONE data storage registered at their prefix (a workspace directory) instead of one per file
+    group_data = bool(grp) and rng.random() < 0.4
+    return {"storage_roles": True, "dirkey": list(dirkey), "group": list(grp), "files": files, "roles": roles,
+            "split_at": split_at, "dirobj_in": rng.choice(["cache", "remote", "both"]), "group_data": group_data,
+            "sqlite": rng.random() < 0.3, "explicit_dirs": rng.random() < 0.5,
+            "existence_index": rng.random() < 0.25}
+
+
+def check_roles(ctx, case):
+    """the adaptor clause of C17 when more than one storage could serve a path: metadata is the index's, and the contents
+    are the bytes of the object the metadata names whenever a registered object store holds it - whatever else (an import
+    source that has moved on, a workspace copy) is registered for the same key; lazy index = explicit index = loaded index"""
+    from dvc_objects.fs.local import LocalFileSystem
+
+    from dvc_data.fs import DataFileSystem
+    from dvc_data.hashfile.hash_info import HashInfo
+    from dvc_data.hashfile.meta import Meta
+    from dvc_data.index.index import DataIndex, DataIndexEntry, FileStorage, ObjectStorage
+
+    from .util import write_file
+
+    root = ctx.mkdtemp()
+    dirkey, grp = tuple(case["dirkey"]), tuple(case["group"])
+    files = {split(k): f for k, f in case["files"].items()}
+    pinned = {k: f["pinned"].encode() for k, f in files.items()}
+    roles = dict(case["roles"])
+    odbs = {r: stores.make_odb(os.path.join(root, r), local=True) for r in ("cache", "remote")}
+    ents = {k[len(dirkey):]: md5hex(pinned[k]) for k, f in files.items() if f["below_dir"]}
+    raw = gen.canonical_listing(ents)
+    toid = md5hex(raw) + ".dir"
+    want_dir = case["dirobj_in"]
+    for r in ("cache", "remote"):
+        for k, f in files.items():
+            if f[r]:
+                stores.put_raw(odbs[r].path, md5hex(pinned[k]), pinned[k])
+    # the directory object sits in a registered object store (otherwise nothing below it can be named at all)
+    holders = [r for r in ("cache", "remote") if roles[r] and want_dir in (r, "both")] or [r for r in ("cache", "remote") if roles[r]][:1]
+    for r in holders:
+        stores.put_raw(odbs[r].path, toid, raw)
+    # import sources / workspace copies as they are now
+    src = os.path.join(root, "upstream")
+    os.makedirs(src)
+    ws = os.path.join(root, "workspace")
+    os.makedirs(ws)
+    grouped = {k for k, f in files.items() if case["group_data"] and not f["below_dir"]}
+    disk = {}                                     # key -> (path, bytes or None) of the data storage registered for it
+    for k, f in files.items():
+        if f["data"] is None:
+            continue
+        p = os.path.join(ws, *k[len(grp):]) if k in grouped else os.path.join(src, "_".join(k))
+        now = None if f["data"] == "gone" else (pinned[k] if f["data"] == "same" else f["now"].encode())
+        if now is not None:
+            write_file(p, now)
+        disk[k] = (p, now)
+
+    def make(form, tag):
+        idx = DataIndex.open(os.path.join(root, "roles-%s.db" % tag)) if case["sqlite"] else DataIndex()
+        for k, f in files.items():
+            if f["below_dir"]:
+                if form == "explicit":
+                    idx[k] = DataIndexEntry(key=k, meta=Meta(md5=md5hex(pinned[k])), hash_info=HashInfo("md5", md5hex(pinned[k])))
+                    for i in range(len(dirkey) + 1, len(k)):
+                        idx[k[:i]] = DataIndexEntry(key=k[:i], meta=Meta(isdir=True), loaded=True)
+            else:
+                idx[k] = DataIndexEntry(key=k, meta=Meta(), hash_info=HashInfo("md5", md5hex(pinned[k])))
+        idx[dirkey] = DataIndexEntry(key=dirkey, meta=Meta(isdir=True), hash_info=HashInfo("md5", toid),
+                                     loaded=True if form == "explicit" else None)
+        if case["explicit_dirs"]:
+            for d in sorted({k[:i] for k in list(files) + [dirkey] for i in range(1, len(k))} - {dirkey}):
+                if not (d[: len(dirkey)] == dirkey):
+                    idx[d] = DataIndexEntry(key=d, meta=Meta(isdir=True), loaded=True)
+        for r, add in (("cache", idx.storage_map.add_cache), ("remote", idx.storage_map.add_remote)):
+            if not roles[r]:
+                continue
+            kw = {"index": DataIndex()} if (case["existence_index"] and r == "remote") else {}
+            if case["split_at"][r] and grp:
+                add(ObjectStorage(dirkey[:1], odbs[r], **kw))          # the same store, registered for each half of the index
+                add(ObjectStorage(grp[:1], odbs[r], **kw))
+            else:
+                add(ObjectStorage((), odbs[r], **kw))
+        if grouped:
+            idx.storage_map.add_data(FileStorage(grp, LocalFileSystem(), ws))
+        for k, (p, _) in disk.items():
+            if k not in grouped:
+                idx.storage_map.add_data(FileStorage(k, LocalFileSystem(), p))
+        return idx
+
+    held = {k: any(roles[r] and f[r] for r in ("cache", "remote")) for k, f in files.items()}
+    ctx.case(case, nontrivial=any(held[k] and files[k]["data"] == "moved" for k in files))
+    ctx.count("family:storage-roles")
+    ctx.count("storage-roles-registered:%s" % "+".join(r for r in ("cache", "remote") if roles[r]))
+    for k, f in files.items():
+        ctx.count("storage-roles-entry:%s/data-%s" % ("object-held" if held[k] else "object-nowhere", f["data"]))
+    sig = "several-storage-roles-for-one-entry"
+    outcomes = {}
+    made = []
+    try:
+        for form in ("lazy", "explicit", "lazy-then-loaded"):
+            idx = make("explicit" if form == "explicit" else "lazy", form)
+            made.append(idx)
+            if form == "lazy-then-loaded":
+                kl, _ = safe_call(idx.load)
+                ctx.oracle(kl == "ok", case, {"why": "load() of the index fails", "form": form, "error": str(_)[:120]}, signature=sig)
+            dfs = DataFileSystem(idx)
+            kf, found = safe_call(lambda: sorted(dfs.find("/")))
+            expf = sorted("/" + "/".join(k) for k in files)
+            ctx.oracle(kf == "ok" and found == expf, case, {"why": "the adaptor does not list exactly the files the index pins",
+                                                            "form": form, "got": found, "expected": expf}, signature=sig)
+            out = outcomes[form] = {}
+            for k in sorted(files):
+                f, c, h = files[k], pinned[k], md5hex(pinned[k])
+                path = "/" + "/".join(k)
+                who = {"form": form, "path": path, "object_in": [r for r in ("cache", "remote") if roles[r] and f[r]],
+                       "data_storage": f["data"]}
+                ki, inf = safe_call(lambda: dfs.info(path))
+                ctx.oracle(ki == "ok" and inf["type"] == "file" and inf.get("md5") == h, case,
+                           {**who, "why": "adaptor metadata differs from the hash the index pins", "info": str(inf)[:120], "pinned_md5": h}, signature=sig)
+                kc, got = safe_call(lambda: dfs.cat_file(path), expected=(FileNotFoundError,))
+
+                def via_open():
+                    with dfs.open(path, "rb") as fobj:
+                        return fobj.read()
+
+                def via_get():
+                    dst = os.path.join(ctx.mkdtemp(), "out")
+                    dfs.get_file(path, dst)
+                    with open(dst, "rb") as fobj:
+                        return fobj.read()
+
+                ko, got_open = safe_call(via_open, expected=(FileNotFoundError,))
+                kg, got_get = safe_call(via_get, expected=(FileNotFoundError,))
+                out[path] = [got if kc == "ok" else str(got)[:40]]
+                ctx.oracle((kc, got) == (ko, got_open) == (kg, got_get), case,
+                           {**who, "why": "cat, open and get_file of one adaptor path disagree with each other",
+                            "cat": str(got)[:60], "open": str(got_open)[:60], "get_file": str(got_get)[:60]}, signature=sig)
+                if held[k]:
+                    # a registered object store holds the object the metadata names: these are the bytes of that path
+                    ctx.oracle(kc == "ok" and got == c, case,
+                               {**who, "why": "the adaptor serves bytes that are not the object its own metadata (and the index) name for the path, "
+                                              "although a registered object store holds that object",
+                                "got": str(got)[:80], "got_md5": md5hex(got) if isinstance(got, bytes) else None,
+                                "pinned": c.decode(), "pinned_md5": h}, signature=sig)
+                elif k in disk and disk[k][1] is not None:
+                    # no object store has it: the only bytes any registered storage holds for the key
+                    ctx.oracle(kc == "ok" and got == disk[k][1], case,
+                               {**who, "why": "the adaptor does not serve the only bytes a registered storage holds for the path",
+                                "got": str(got)[:80], "held": disk[k][1].decode()}, signature=sig)
+                else:
+                    ctx.oracle(kc != "ok", case, {**who, "why": "the adaptor serves bytes for a path no registered storage holds", "got": str(got)[:80]}, signature=sig)
+        ctx.oracle(outcomes["lazy"] == outcomes["explicit"] == outcomes["lazy-then-loaded"], case,
+                   {"why": "the adaptor over the lazy index serves other contents than over the explicit / loaded index",
+                    "differs": [p for p in outcomes["lazy"] if not (outcomes["lazy"][p] == outcomes["explicit"].get(p) == outcomes["lazy-then-loaded"].get(p))][:4]},
+                   signature=sig)
+    finally:
+        for idx in made:
+            safe_call(idx.close)
+
+
 def fs_key_table(ctx):
     """FsPath.getKey ~ DataFileSystem._get_key, exhaustively over every path spelling of up to 6 characters over {a, b, '.', '/'}
     (5461 strings: absolute and relative, empty, runs of slashes, '.' and '..' components, '..' above the root)"""
@@ -772,7 +984,15 @@ def run(ctx):
         "it; later revisions rewrite / drop / add files), in one shared object database (80%) or one per revision, each revision as "
         "a lazy and as an explicitly expanded index (memory / SQLite); 3-7 adaptors over these indexes or over views of them with "
         "random prefix-closed filters, created all up front or one at a time: every adaptor's find / info / cat / ls must show "
-        "exactly the files, hashes and bytes of the index or view it was built over. Exhaustive: the adaptor's path -> key conversion over every spelling of up to 6 characters over {a, b, '.', '/'}"
+        "exactly the files, hashes and bytes of the index or view it was built over. Fourth family (oracle only): several storage "
+        "roles for one entry - an index pinning 1-3 files and a directory object by hash, a cache and / or remote object store "
+        "(at () or per top-level prefix, remote optionally with an existence index) each holding an independent subset of the "
+        "pinned objects, and `data` FileStorages (import sources per file, or one workspace directory for the explicit files) "
+        "whose bytes are the pinned ones / have moved on / are gone; over the lazy, the explicit and the lazy-then-loaded index "
+        "(memory / SQLite) the adaptor's find, info, cat = open = get_file: the bytes are those of the object the metadata names "
+        "whenever a registered object store holds it, else the only bytes a registered storage holds, else FileNotFoundError. "
+        "Fifth: the first family again with unloaded directory objects whose listing is EMPTY (the object `[]`) - as a sibling of "
+        "the other entries, nested at depth 2-3, or as the only entry of the index; memory and SQLite (same oracles and model tie). Exhaustive: the adaptor's path -> key conversion over every spelling of up to 6 characters over {a, b, '.', '/'}"
     )
     ctx.assumptions = ["len() of an index before any access is not load-transparent and not part of the property"]
     root_key_cases(ctx)
@@ -783,6 +1003,10 @@ def run(ctx):
         check_fs(ctx, gen_fs_case(ctx.rng))
     for _ in range(ctx.n(40, 400)):
         check_adaptors(ctx, gen_adaptors_case(ctx.rng))
+    for _ in range(ctx.n(24, 300)):
+        check_roles(ctx, gen_roles_case(ctx.rng))
+    for i in range(ctx.n(18, 300)):
+        check(ctx, gen_case(ctx.rng, empty=("sibling", "nested", "only")[i % 3]))
 
 
 def search(ctx):
@@ -792,6 +1016,10 @@ def search(ctx):
             check_fs(ctx, gen_fs_case(ctx.rng))
         if ctx.rng.random() < 0.3:
             check_adaptors(ctx, gen_adaptors_case(ctx.rng))
+        if ctx.rng.random() < 0.3:
+            check_roles(ctx, gen_roles_case(ctx.rng))
+        if ctx.rng.random() < 0.2:
+            check(ctx, gen_case(ctx.rng, empty=ctx.rng.choice(["sibling", "nested", "only"])))
 
 
 def replay(ctx, payload):
